@@ -142,6 +142,8 @@ def run(ctx, build):
 
     for hi in range(n_hist):
         N, M = rng.randint(2, 6), rng.randint(1, 3)
+        if hi in (8, 9):                    # designed: a large group that is all but complete (1 of 400 / 250 pending)
+            N, M = (400, 1) if hi == 8 else (250, 2)
         separate = rng.random() < 0.3
         for fpath in (src, tgt, log):
             if os.path.exists(fpath):
@@ -164,7 +166,7 @@ def run(ctx, build):
             groups = []
             # the first histories are fixed designs (independent of the seed): exactly one matching group that is partial /
             # complete, judged with and without override
-            forced = hi < 8
+            forced = hi < 10
             for gi in range(1 if forced else rng.randint(0, 5)):
                 r = rng.random()
                 dn = this_d if (r < 0.6 or forced) else rng.choice(DSETS)
@@ -174,6 +176,8 @@ def run(ctx, build):
                 if forced:
                     prog = [('partial', [1] + [0] * (N - 1), None), ('complete', [1] * N, None), ('status_wrong_length', [1] * N),
                             ('status_malformed_values', [2] * (N // 2 + 1) + [0] * (N - N // 2 - 1))][(hi // 2) % 4]
+                    if hi >= 8:
+                        prog = ('partial', [0 if i == N // 3 else 1 for i in range(N)], None)
                 hist['progress_kinds'][prog[0]] = hist['progress_kinds'].get(prog[0], 0) + 1
                 name, status, lp = make_group(rng, mains[dn], N, M, tool, parms, target, prog)
                 groups.append({'name': name, 'dset': dn, 'tool': tool, 'parms': parms, 'progress': prog, 'status': status, 'last_pixel': lp})
@@ -188,7 +192,7 @@ def run(ctx, build):
                 hist['twin_source_in_separate_target'] = hist.get('twin_source_in_separate_target', 0) + 1
             parent = ft if separate else grp0
             before = {g['name']: digest(parent[g['name']]) for g in groups}
-            override = (hi % 2 == 0) if hi < 8 else rng.random() < 0.3
+            override = (hi % 2 == 0) if hi < 8 else (False if hi < 10 else rng.random() < 0.3)
             hist['histories'] += 1
             hist['separate_target'] += int(separate)
             hist['override'] += int(override)
